@@ -21,6 +21,9 @@ stall <i> <client> <fault>                           -> <i> small Err big Err
 abandon <i> <client> <MiB>                           -> <i> next returned
 wtmo <i> <client> <N> <MiB>                          -> <i> small Err,.. big Err
 seq <i> <client> <T> <K>                             -> <i> ok <T*K>
+seqbig <i> <client> <T> <K> <nbig>                   -> <i> ok <T*K>   (ws: oversized requests refused meanwhile)
+fwd <i> 1 <ids|dup|reuse>                            -> <i> ok         (forward_message, caller-chosen ids)
+fwdres <i> 1                                         -> <i> ok         (forward timed out / cancelled: no residue)
 sched <i> <client> <N> <S0,W0,Fr0,D,T0,C0,X,A,..>    -> <i> got <tag|T|E|HANG|->,.. gates <m|u|n>,..
       (forced on the real client through the verif-hooks probe points, see fam_mux.rs `mod sched`)
 ```
@@ -61,6 +64,7 @@ def showOutcome (k : Call) : String :=
 def parseTok (ids : List Nat) (unknownBase : Nat) (tag : Nat) (t : String) : Option Frame :=
   let n := (t.drop 1).toNat?
   match t.front, n with
+  | 'e', some k => some { id := unknownBase + k, notify := false, tag := tag }   -- unknown id, ec != 0
   | 'r', some c => (ids[c]?).map fun id => { id := id, notify := false, tag := tag }
   | 'n', some c => (ids[c]?).map fun id => { id := id, notify := true, tag := tag }
   | 'u', some k => some { id := unknownBase + k, notify := false, tag := tag }
@@ -336,6 +340,22 @@ def stepLine (_ : Unit) (ws : List String) : Unit × String :=
     match cfgOf (natOf client) with
     | none => bad i
     | some cfg => ((), i ++ " " ++ runSched cfg (natOf n) (splitCommas acts))
+  | ["seqbig", i, client, t, k, _nbig] =>
+    match cfgOf (natOf client) with
+    | none => bad i
+    | some cfg => ((), i ++ " " ++ runSeq cfg (natOf t * natOf k))
+  | ["fwd", i, client, _mode] =>
+    -- caller-chosen ids behave like issued ids as long as they are distinct among the calls in flight
+    match cfgOf (natOf client) with
+    | none => bad i
+    | some cfg => ((), i ++ (if runSeq cfg 3 == "ok 3" then " ok" else " bad"))
+  | ["fwdres", i, client] =>
+    match cfgOf (natOf client) with
+    | none => bad i
+    | some cfg =>
+      let a := runTmo cfg "late"
+      let b := runCancel cfg "wait"
+      ((), i ++ (if a == "first Timeout next own" && b == "cancelled next own residue 0" then " ok" else " bad"))
   | ["seq", i, client, t, k] =>
     match cfgOf (natOf client) with
     | none => bad i
